@@ -1,0 +1,16 @@
+//go:build verif
+
+package playback
+
+// Machine-checked contracts for /verif (govc). Comment-only: compiled only with -tags verif, adds no code.
+
+//@ func durationGoToMp4
+//@   property C24
+//@   domain inI64(tdiv(v*timeScale, 1000000000))
+//@   ensures result == tdiv(v*timeScale, 1000000000)
+
+//@ func durationMp4ToGo
+//@   property C24
+//@   domain timeScale >= 1
+//@   domain inI64(tdiv(v*1000000000, timeScale))
+//@   ensures result == tdiv(v*1000000000, timeScale)
